@@ -217,6 +217,7 @@ def run_signal(item):
             sig = ocp.variable(grid='bspline', order=order)
             want_der = order >= 1 and (method == 'SM' or item.get('der'))
             dsig = ocp.der(sig) if want_der else None
+            d2sig = ocp.der(dsig) if (dsig is not None and order >= 2 and method == 'SM') else None      # declared before the first transcription
             grid = make_grid(item['grid'])
             if method == 'SM':
                 ocp.subject_to(ocp.at_t0(sig) == 0)
@@ -240,6 +241,9 @@ def run_signal(item):
                 outs = [ts, ss, ocp.value(ocp.T), tg, cg]
                 if dsig is not None:
                     outs += [ocp.sample(dsig, grid='gist')[1], ocp.sample(dsig, grid='control', refine=refine)[1]]
+                if d2sig is not None:
+                    # der applied twice: second derivative in physical time
+                    outs += [ocp.sample(d2sig, grid='control', refine=refine)[1]]
             else:
                 ts, ss = ocp.sample(sig, grid='integrator', refine=refine)
                 outs = [ts, ss, ocp.value(ocp.T)]
@@ -306,6 +310,10 @@ def run_signal(item):
             dv = out[6][j] if method == 'SM' else out[3][j]
             # derivative in PHYSICAL time: d/dt = (1/T) d/dxi ; compare T*der == d/dxi
             ctx.prove('T*sample(der(sig))[%d]' % j, dv * Tz, rv, key + '|derivative')
+            if method == 'SM' and order >= 2 and not (order - 2 == 0 and j == npts - 1):
+                refd2 = rb.derivative_coeffs(refd, xi, order - 1, ctx.rdom)
+                rv2 = rb.spline_value(refd2, xi, order - 2, span, ctx.rdom.const(xj), ctx.rdom)
+                ctx.prove('T^2*sample(der(der(sig)))[%d]' % j, out[7][j] * Tz * Tz, rv2, key + '|second-derivative')
     if order >= 1 and npts > 2:
         # twin (vacuity): the reference spline with the coefficient order reversed must be told apart
         j = 1
